@@ -31,9 +31,9 @@ def replay_stream(results, rng, tier, per_prog=2):
     return lines, meta
 
 
-def extra(c, rng, tier):
-    # the std streams were already run by run_kernel_prop; run them again here to harvest schedules
-    base = std_streams(rng, tier, "C01r", per_quick=40, per_thorough=600)
+def extra(c, rng, tier, results):
+    # harvest recorded schedules from the streams run_kernel_prop has just executed
+    base = {k: v for k, v in results.items()}
     lines, meta = replay_stream(base, rng, tier)
     rp = run_stream("c01_replay", lines, "trace")
     bad = []
@@ -61,10 +61,7 @@ def extra(c, rng, tier):
             bad.append(("replay re-records a different schedule", {"kind": "program", "program": prog}, "C01:replay-schedule"))
         elif g["seed"] != e["seed"]:
             bad.append(("replay uses a different data seed", {"kind": "program", "program": prog}, "C01:replay-seed"))
-    res = {"replay": rp}
-    for k, v in base.items():
-        res["harvest_" + k] = v
-    return res, bad
+    return {"replay": rp}, bad
 
 
 def run(tier, seed):
